@@ -132,6 +132,20 @@ def metainfo (s : State) (n : Name) : Option MetaInfo :=
 
 def inMem (s : State) (n : Name) : Bool := (memGet s n).isSome
 
+/-- a `FileReader` handed out by `GetCacheFileReader`: the name it was opened under and the bytes it will
+deliver.  A reader over a memory entry refers to the entry's buffer, a reader over a cache file to the open
+file; neither is ever written again (entries and cache files are immutable, removal only drops the last
+reference / unlinks), so what the reader yields is fixed when it is opened, whatever the store does later. -/
+structure Reader where
+  name : Name
+  bytes : Bytes
+  deriving Repr, DecidableEq
+
+def openReader (s : State) (n : Name) : Option Reader := (readable s n).map fun b => { name := n, bytes := b }
+
+/-- reading a held reader to the end, at any later state of the store -/
+def Reader.readAll (r : Reader) (_later : State) : Bytes := r.bytes
+
 /-- `ListCacheFiles` as a set -/
 def listed (s : State) : List Name :=
   KV.keys s.cache ++ (if s.cfg.memEnabled then MemCache.names s.mem else [])
